@@ -232,7 +232,7 @@ def judge(case):
 
 
 def plan(tier, seed):
-    n = 16000 if tier == "quick" else 200000
+    n = 60000 if tier == "quick" else 400000
     return [{"kind": "cases", "n": n // 16, "seed": common.seed_for(PROP, tier, seed, i)}
             for i in range(16)]
 
